@@ -5,7 +5,7 @@ import sym
 import scan
 import c12
 
-CONFIGS_QUICK = ["F_all"]
+CONFIGS_QUICK = ["F_all", "F_def", "F_noenc"]  # every configuration whose cfg-gated code the property depends on
 CONFIGS_THOROUGH = ["F_all", "F_def", "F_noenc"]
 TECHNIQUE = 'static analysis: decision-table extraction by symbolic path walking over rustc MIR (dispatch, scanner automata), constant relations between detection and stripping, value sets of byte predicates, linear-form index agreement of the comment-check scan window'
 EXPLANATION = (
@@ -215,6 +215,7 @@ def r3_scanners(ctx):
             vs = F.variants("reader::BangType")
             info = {v: {"lits": set(), "needles": None, "min": None, "cuts": set()} for v in vs}
             bal = {"inc": False, "dec": False, "ret_on_zero": False}
+            rows_by_variant = {}
             for p in ctx.paths(b, max_paths=60000):
                 k = decision_on(p, lambda t: t[0] == "discr" and root_of(t[1])[0] == "arg" and root_of(t[1])[2] == "self")
                 if not isinstance(k, int):
@@ -236,6 +237,21 @@ def r3_scanners(ctx):
                 for e in p:
                     if e[0] == "switch" and e[2][0] == "bin" and e[2][1] == "Eq" and e[2][2][0] == "pl" and e[2][3][0] == "c" and e[2][3][1] == "usize":
                         info[v]["cuts"].add(e[2][3][2])
+                if is_some and v in ("Comment", "CData"):
+                    # what this exit established about the bytes before the '>' it reports
+                    row = {"i": None, "buf": None, "chunk": None, "c0": None}
+                    for e in p:
+                        if e[0] != "switch" or e[3] in (0, None):
+                            continue
+                        t = e[2]
+                        if call_is(t, "ends_with"):
+                            who = "chunk" if has_subterm(t[3][0], lambda s2: s2[0] == "arg" and s2[2] == "chunk") else "buf"
+                            row[who] = bytes_literal(t[3][1])
+                        elif t[0] == "bin" and t[1] == "Eq" and t[3][0] == "c" and t[3][1] == "usize":
+                            row["i"] = t[3][2]
+                        elif t[0] == "bin" and t[1] == "Eq" and t[3][0] == "c" and t[3][1] == "u8" and has_subterm(t[2], lambda s2: s2[0] == "arg" and s2[2] == "chunk"):
+                            row["c0"] = t[3][2]
+                    rows_by_variant.setdefault(v, set()).add((row["i"], row["buf"], row["chunk"], row["c0"]))
                 if v == "DocType":
                     for e in p:
                         if e[0] == "store" and has_subterm(e[3], lambda s: s[0] == "bin" and s[1] == "Add" and s[3] == ("c", "i32", 1)):
@@ -247,6 +263,11 @@ def r3_scanners(ctx):
                         bal["ret_on_zero"] = bool(z) and z[-1][3] != 0
             ctx.ob("R3", "BangType::parse:Comment", info["Comment"]["needles"] == (62,) and {("chunk", b"--"), ("buf", b"-"), ("buf", b"--")} <= info["Comment"]["lits"] and info["Comment"]["cuts"] >= {0, 1},
                    "a comment ends at '>' preceded by '--' in all three placements of the chunk cut: %s" % info["Comment"], config=cfg)
+            for v, t1, t2, b0 in (("Comment", b"-", b"--", 45), ("CData", b"]", b"]]", 93)):
+                want = {(None, None, t2, None), (1, t1, None, b0), (0, t2, None, None)}
+                got = rows_by_variant.get(v, set())
+                ctx.ob("R3", "BangType::parse:%s:exits" % v, got == want,
+                       "every exit reporting the end established the whole terminator: in the chunk, or one byte in the buffer + chunk[0] at i == 1, or both in the buffer at i == 0; rows (i, buf ends, chunk[..i] ends, chunk[0]): extra %s missing %s" % (sorted(got - want, key=str), sorted(want - got, key=str)), config=cfg)
             ctx.ob("R3", "BangType::parse:Comment:min-length", info["Comment"]["min"] == 4, "EVERY exit that reports a finished comment must have tested buffered+index > 4 (`!--` + `--` do not overlap), which also keeps emit_bang's buf[3..len-2] in range; weakest exit tests > %s" % info["Comment"]["min"], config=cfg)
             ctx.ob("R3", "BangType::parse:CData", info["CData"]["needles"] == (62,) and {("chunk", b"]]"), ("buf", b"]"), ("buf", b"]]")} <= info["CData"]["lits"] and info["CData"]["cuts"] >= {0, 1},
                    "CDATA ends at '>' preceded by ']]' in all three placements of the chunk cut: %s" % info["CData"], config=cfg)
